@@ -145,6 +145,42 @@ def console(ctx, cfg, fs):
                     chunk = any(q.kind == 'call' and q.call.is_(r'Splitter.*next$') for a in r.call.args for q in provenance(b, a, r.call.bb, 'term'))
                     if consts == [' '] and chunk:
                         skip_edges.append((sw.b, sw.target(True)))
+    # the wrap itself (newline pushed inside the width region) must happen WHENEVER the chunk does not fit: the only
+    # conditions it may depend on, inside the Raw arm, are the width comparison and "the output is not empty"
+    arm = reachable_edges(b, raw, avoid=[header])
+    wraps = [c for c in writes if c.bb in W and c.is_(r'String::push$')]
+    extra = []; n_width = 0; shape = True
+    def too_wide_edge(sw):
+        """the outcome of sw that means `position + length > max_width`, or None when sw is not that comparison
+        (accepted spellings: sum > w, !(sum <= w), w < sum, !(w >= sum))"""
+        for r in sw.roots:
+            if r.kind == 'bin' and r.extra['op'] in ('Gt', 'Lt', 'Ge', 'Le'):
+                sides = [provenance(b, r.extra[k_], r.site[0], r.site[1], through=None) for k_ in ('a', 'b')]
+                has_w = [bool(x) and all(q.kind == 'param' and q.what == 'max_width' for q in x) for x in sides]
+                has_sum = [bool(x) and all(q.kind == 'bin' and q.extra['op'].startswith('Add') for q in x) for x in sides]
+                if has_sum[0] and has_w[1]:
+                    return {'Gt': True, 'Le': False}.get(r.extra['op'])
+                if has_w[0] and has_sum[1]:
+                    return {'Lt': True, 'Ge': False}.get(r.extra['op'])
+        return None
+    for c in wraps:
+        for (a, s_) in b.transitive_control_deps(c.bb):
+            if a not in arm or a == csw.b:
+                continue
+            sw = Switch(b, a)
+            if any(sw.b == x.b for x in wsw):
+                n_width += 1
+                tw = too_wide_edge(sw)
+                if tw is None or s_ != sw.target(tw):
+                    shape = False; extra.append('width-dependent condition at %s that is not `position + length > max_width`' % span_str(b.term(a).get('span')))
+                continue
+            if sw.kind == 'bool' and sw.roots and all((r.kind == 'call' and r.call.is_(r'String::is_empty$', r'str::<impl str>::is_empty$') and on_res(r.call)) or
+                                                      (r.kind == 'un' and all(q.kind == 'call' and q.call.is_(r'String::is_empty$') for q in provenance(b, r.extra['a'], r.site[0], r.site[1], through=None))) for r in sw.roots):
+                continue
+            extra.append('%s' % span_str(b.term(a).get('span')))
+    shape = shape and n_width == len(wraps)
+    ctx.ob('W.width', 'render_console:wrap-whenever-too-wide', bool(wraps) and n_width >= 1 and not extra and shape,
+           'the line break before a chunk that does not fit depends only on `position + chunk length > max_width` and on the output being non-empty (%d wrap site(s); other conditions at %s; comparison shape ok: %s)' % (len(wraps), extra or 'none', shape), where=b.where(), cfg=cfg)
     stop = {c.bb for c in content}
     reach = reachable_edges(b, raw, removed_edges=skip_edges, avoid=stop)
     ok = header not in reach and not any(r in reach for r in b.return_blocks())
